@@ -3,15 +3,15 @@
 (`FnSEq.*` in lean/Proofs/FnS*.lean: generated accessor = model function of its defining inputs). Run after adding theorems."""
 import re, os
 ROOT = os.path.dirname(os.path.dirname(os.path.abspath(__file__)))
-HELP = ("s1_", "s2_", "s3_", "s4_", "s5_", "s6_", "s7_", "sb_", "sd_", "sf_")
+HELP = ("s1_", "s2_", "s3_", "s4_", "s5_", "s6_", "s7_", "sb_", "sd_", "sf_", "sr_", "sc_")
 def thms(mod):
     src = open(os.path.join(ROOT, "lean/Proofs", mod + ".lean"), encoding="utf-8").read()
     names = re.findall(r"^(?:@\[simp\] )?theorem ([A-Za-z0-9_']+)", src, re.M)
     return [n for n in names if not n.startswith(HELP)]
 PROPS = {
  "C08": ("accessors: every translated accessor returns `.ok` of the model's value under the index ranges of a library-built object, and panics exactly outside the stated guards", ["FnSBase", "FnS1", "FnS2", "FnS3", "FnSYearObj", "FnSTaoFoto", "FnSDecoders", "FnSNineStarObj", "FnSHex"]),
- "C11": ("two routes, one value: the `Lunar.GetTimeX` accessors and the hour object's (`LunarTime`) accessors, the eight-character object and the `Lunar` pillars are each tied to the SAME model function of the same indices; the two routes to the hour's suitable / avoid lists are the same decoder call", ["FnSBase", "FnS1", "FnS2", "FnS3", "FnSDecoders"]),
- "C18": ("attributes are functions of their defining inputs: each translated accessor equals a model function applied to the index fields named in its statement only", ["FnSBase", "FnS1", "FnS2", "FnS3", "FnSYearObj", "FnSDecoders"]),
+ "C11": ("two routes, one value: the `Lunar.GetTimeX` accessors and the hour object's (`LunarTime`) accessors, the eight-character object and the `Lunar` pillars are each tied to the SAME model function of the same indices; the two routes to the hour's suitable / avoid lists are the same decoder call; `FnSRoutes`: the agreement stated DIRECTLY between the two generated functions, guard-free (hour object vs lunar date, eight-character object vs lunar date, deprecated aliases)", ["FnSBase", "FnS1", "FnS2", "FnS3", "FnSDecoders", "FnSRoutes"]),
+ "C18": ("attributes are functions of their defining inputs: each translated accessor equals a model function applied to the index fields named in its statement only", ["FnSBase", "FnS1", "FnS2", "FnS3", "FnSYearObj", "FnSDecoders", "FnSCongr"]),
  "C17": ("Taoist / Buddhist predicates and renderings of the regenerated code equal the model", ["FnSTaoFoto", "FnSRender", "FnSTaoDay"]),
  "C12": ("fortune pillars: the regenerated `DaYun / XiaoYun / LiuNian / LiuYue .GetGanZhi` (and Xun / XunKong) equal the model's 60-cycle arithmetic from the month / hour / Lichun-year pillar, on every input (result, panic or out of fuel)", ["FnSFortune"]),
  "C13": ("festivals and seasonal names: the regenerated `Lunar.GetFestivals` reports New Year's Eve exactly under the coded rule (and nothing in the table is called 除夕); `GetHou` / `GetWuHou` equal the model", ["FnSLunarFest", "FnSHou"]),
